@@ -16,6 +16,7 @@ func (p *Prog) shortPkg(path string) string {
 }
 
 func GenFunc(prog *Prog, fn *ssa.Function, fc *FuncContract) *VC {
+	curDefs = map[string]string{}
 	enc := NewEncoder(prog, fc.Arith)
 	enc.basePrelude()
 	vc := &VC{enc: enc, prog: prog, fn: fn, fc: fc, clos: map[string]*closureVal{}, memDeclared: map[string]bool{}, recSpecs: map[string]*recSpecInfo{}, nameCount: map[string]int{}}
@@ -106,11 +107,57 @@ func GenFunc(prog *Prog, fn *ssa.Function, fc *FuncContract) *VC {
 	return vc
 }
 
-// axiomKeys: prelude blocks that are only included when their symbol occurs in the query.
+// lazyPre: assert-only prelude blocks and the symbol whose use makes them relevant.
 var lazyPre = map[string]string{
-	"str.ax":     "str.len",
-	"str.lt.ax":  "str.lt",
-	"str.sub.ax": "str.sub",
+	"strax":     "strlen",
+	"strlt.ax":  "strlt",
+	"strsub.ax": "strsub",
+}
+
+var alwaysPre = map[string]bool{"Str": true, "Opaque": true, "Ptr": true, "Slice": true, "Iface": true, "nilptr": true, "nilslice": true, "niliface": true, "wm@entry": true, "tdiv": true}
+
+func isSymChar(c byte) bool {
+	return c == '_' || c == '.' || c == '!' || c == '@' || c == '|' || c == '$' || c == '-' || (c >= '0' && c <= '9') || (c >= 'a' && c <= 'z') || (c >= 'A' && c <= 'Z')
+}
+
+// mentions reports whether sym occurs in text as a whole symbol.
+func mentions(text, sym string) bool {
+	for off := 0; ; {
+		i := strings.Index(text[off:], sym)
+		if i < 0 {
+			return false
+		}
+		i += off
+		j := i + len(sym)
+		if (i == 0 || !isSymChar(text[i-1])) && (j >= len(text) || !isSymChar(text[j])) {
+			return true
+		}
+		off = i + 1
+	}
+}
+
+// primarySymbol of a prelude entry: the first declared/defined name.
+func primarySymbol(decl string) string {
+	for _, kw := range []string{"(declare-fun ", "(declare-const ", "(define-fun-rec ", "(define-fun "} {
+		if strings.HasPrefix(decl, kw) {
+			rest := decl[len(kw):]
+			if strings.HasPrefix(rest, "|") {
+				if k := strings.Index(rest[1:], "|"); k >= 0 {
+					return rest[:k+2]
+				}
+			}
+			if k := strings.IndexAny(rest, " ()"); k >= 0 {
+				return rest[:k]
+			}
+		}
+	}
+	if strings.HasPrefix(decl, "(declare-datatypes ((") {
+		rest := decl[len("(declare-datatypes (("):]
+		if k := strings.IndexAny(rest, " "); k >= 0 {
+			return rest[:k]
+		}
+	}
+	return ""
 }
 
 func (vc *VC) Query(o *Obligation, wantModel bool) string {
@@ -123,30 +170,38 @@ func (vc *VC) Query(o *Obligation, wantModel bool) string {
 	goal := fmt.Sprintf("(assert (not (=> %s %s)))\n", o.Path, o.Goal)
 	rest := body.String() + goal
 	sb.WriteString("(set-option :produce-models true)\n(set-logic ALL)\n")
-	// prelude; lazily include axiom blocks
-	preText := strings.Join(vc.enc.pre, "\n")
-	for i, p := range vc.enc.pre {
-		key := vc.enc.preKeys[i]
-		if sym, ok := lazyPre[key]; ok {
-			if !strings.Contains(rest, sym) && !strings.Contains(preTextWithout(vc.enc, i), "("+sym+" ") {
+	// prelude: include an entry only if the query (transitively) mentions its symbol
+	pre := vc.enc.pre
+	keys := vc.enc.preKeys
+	inc := make([]bool, len(pre))
+	needed := rest
+	for changed := true; changed; {
+		changed = false
+		for i := len(pre) - 1; i >= 0; i-- {
+			if inc[i] {
 				continue
 			}
-		}
-		if strings.HasSuffix(key, ".ax") && strings.HasPrefix(key, "maplen.") {
-			if !strings.Contains(rest, strings.TrimSuffix(key, ".ax")) {
-				continue
+			sym := primarySymbol(pre[i])
+			if s, ok := lazyPre[keys[i]]; ok {
+				sym = s
+			}
+			if strings.HasSuffix(keys[i], ".ax") && sym == "" {
+				sym = strings.TrimSuffix(keys[i], ".ax")
+			}
+			if alwaysPre[keys[i]] || (sym != "" && mentions(needed, sym)) || (sym == "" && !strings.HasSuffix(keys[i], ".ax")) {
+				inc[i] = true
+				needed += pre[i] + "\n"
+				changed = true
 			}
 		}
-		if strings.HasPrefix(key, "box:") {
-			if !strings.Contains(rest, "box."+strings.TrimPrefix(key, "box:")) {
-				continue
-			}
-		}
-		sb.WriteString(p)
-		sb.WriteString("\n")
 	}
-	_ = preText
-	for _, l := range vc.enc.strLitDecls() {
+	for i, p := range pre {
+		if inc[i] {
+			sb.WriteString(p)
+			sb.WriteString("\n")
+		}
+	}
+	for _, l := range vc.enc.strLitDecls(needed) {
 		sb.WriteString(l)
 		sb.WriteString("\n")
 	}
@@ -154,23 +209,6 @@ func (vc *VC) Query(o *Obligation, wantModel bool) string {
 	sb.WriteString("(check-sat)\n")
 	if wantModel {
 		sb.WriteString("(get-model)\n")
-	}
-	return sb.String()
-}
-
-func preTextWithout(e *Encoder, skip int) string {
-	var sb strings.Builder
-	for i, p := range e.pre {
-		if i == skip {
-			continue
-		}
-		if _, lazy := lazyPre[e.preKeys[i]]; lazy {
-			continue
-		}
-		if strings.HasPrefix(p, "(declare-fun") || strings.HasPrefix(p, "(declare-sort") || strings.HasPrefix(p, "(declare-datatypes") {
-			continue
-		}
-		sb.WriteString(p)
 	}
 	return sb.String()
 }
